@@ -73,3 +73,25 @@ Definition is_line_start (c : list Z) (s : Z) : Prop :=
 (* positions at which a since constraint may leave the file *)
 Definition is_line_boundary (c : list Z) (s : Z) : Prop :=
   s = 0 \/ s = lenZ c \/ lf_at c (s - 1).
+
+(* ---- the search budget ------------------------------------------------
+   The lookups read at most A chunks of H bytes in each direction and give
+   up (MaxSearchableLineLengthReached) beyond that.  Exactly:
+   forwards from [o]  : a line feed at p is found iff p - o < A*H; the end
+                        of the file is recognised iff |c| - o <= (A-1)*H
+                        (one attempt is spent on the empty read);
+   backwards from [o] : a line feed at q is found iff o - q <= A*H; the
+                        start of the file is recognised iff o <= (A-1)*H
+                        (the last attempt never reports start-of-file). *)
+Definition fwd_in_budget (H A : Z) (c : list Z) (o : Z) : bool :=
+  match next_lf c o with
+  | Some p => p - o <? A * H
+  | None => lenZ c - o <=? (A - 1) * H
+  end.
+Definition bwd_in_budget (H A : Z) (c : list Z) (o : Z) : bool :=
+  match prev_lf c o with
+  | Some q => o - q <=? A * H
+  | None => o <=? (A - 1) * H
+  end.
+Definition within_budget (H A : Z) (c : list Z) (o : Z) : bool :=
+  fwd_in_budget H A c o && bwd_in_budget H A c o.
